@@ -873,6 +873,7 @@ namespace bluetoe {
 
         const io_capabilities_t remote_io_caps = {{ io_capability, oob_data_flag, auth_req }};
 
+        this->request_oob_data_presents_for_remote_device( state.remote_address() );
         state.pairing_algorithm( lesc_select_pairing_algorithm( io_capability, oob_data_flag, auth_req, this->has_oob_data_for_remote_device() ) );
         state.pairing_requested( remote_io_caps );
         create_pairing_response( output, out_size, lesc_local_io_caps() );
